@@ -101,7 +101,8 @@ impl FromStr for Buf {
                     ix = 0;
                     continue;
                 }
-                v.push(chr as u8);
+                let mut utf8 = [0u8; 4];
+                v.extend_from_slice(chr.encode_utf8(&mut utf8).as_bytes());
             } else {
                 if chr.is_whitespace() {
                     continue;
